@@ -654,6 +654,39 @@ theorem cost_distrib_wrap_witness_bitvec :
       ≠ (if (1#32 + 4294967295#32) ≤ (1#32 + 0#32) then 1#32 + 4294967295#32 else 1#32 + 0#32) := by
   decide
 
+/-! ## Non-vacuity: concrete instances -/
+
+example : CP.collect (fuelFor 2 [0, 1]) (CP.init 2 [0, 1]) = some [[0, 0], [1, 0], [0, 1], [1, 1]] := by rfl
+example : CP.collect (fuelFor 3 [7]) (CP.init 3 [7]) = some [[7, 7, 7]] := by rfl
+example : CP.collect (fuelFor 0 ([] : List Nat)) (CP.init 0 ([] : List Nat)) = some [] := by rfl
+example : allTuples 2 [0, 1, 1] = [[0, 0], [1, 0], [1, 0], [0, 1], [1, 1], [1, 1], [0, 1], [1, 1], [1, 1]] := by rfl
+example : associativity [0, 1, 2] Nat.max = .ok () := by rfl
+example : associativity [0, 1, 2] Nat.sub = .error "Associativity check failed." := by rfl
+example : Assoc [0, 1, 2] Nat.max := (associativity_ok_iff_law _ _).mp rfl
+example : identity [0, 1, 2] Nat.max 1 = .error "Left Identity check failed." := by rfl
+example : identity [1, 2] (fun _ b => b) 1 = .error "Right Identity check failed." := by rfl
+/-- GF(2): (xor, and, false, true) passes `field` -/
+example : field [false, true] xor and false true id (fun _ => true) = .ok () := by rfl
+/-- Z/3: a group, not with the wrong inverse -/
+example : abelianGroup [0, 1, 2] (fun a b => (a + b) % 3) 0 (fun a => (3 - a) % 3) = .ok () := by rfl
+example : group [0, 1, 2] (fun a b => (a + b) % 3) 0 id = .error "Inverse check failed." := by rfl
+/-- Z/4 is a commutative ring but not an integral domain (2*2 = 0) -/
+example : commutativeRing [0, 1, 2, 3] (fun a b => (a + b) % 4) (fun a b => (a * b) % 4) 0 1
+    (fun a => (4 - a) % 4) = .ok () := by rfl
+example : integralDomain [0, 1, 2, 3] (fun a b => (a + b) % 4) (fun a b => (a * b) % 4) 0 1
+    (fun a => (4 - a) % 4) = .error "No nonzero zero divisors check failed." := by rfl
+example : bilinearity [0, 1, 2] [0, 1, 2] (fun a b => (a + b) % 3) (fun a b => (a + b) % 3)
+    (fun a b => (a + b) % 3) (fun a b => (a * b) % 3) = .ok () := by rfl
+example : getSingleFunctionProperties [0, 1, 2] (fun a _ => a) 0 id 0 = ["associativity", "idempotency"] := by rfl
+example : semiring [false, true] BinaryTrust.add BinaryTrust.mul BinaryTrust.zero BinaryTrust.one = .ok () :=
+  semiring_ok_of_laws binaryTrust_semiring_laws _
+example : semiring [none, some 0, some 5, some 4294967295] Cost.add Cost.mulNat Cost.zero Cost.one = .ok () :=
+  semiring_ok_of_laws cost_semiring_laws_unbounded _
+example : Multiplicity.add 4294967295 1 = none := by rfl
+example : Multiplicity.mul 65536 65535 = some 4294901760 := by rfl
+example : Cost.mulChecked (some 1) (some 4294967295) = none := by rfl
+example : Cost.mulWrapping (some 1) (some 4294967295) = some 0 := by rfl
+
 end laws
 
 end HvAlg
